@@ -17,19 +17,60 @@ var readerMethods = map[string]bool{"Read": true, "ReadUserTuple": true, "ReadUs
 // forwardCallees: names of functions the value flows into as an argument, transitively through
 // the results of those calls, phis, extracts, stores into locals and closure captures.
 func (e *Engine) forwardCallees(start ssa.Value) map[string]bool {
+	out, _ := e.forwardCalls(start)
+	return out
+}
+
+// forwardCalls additionally returns the call instructions the value flows into, by callee name.
+func (e *Engine) forwardCalls(start ssa.Value) (map[string]bool, map[string][]ssa.CallInstruction) {
 	out := map[string]bool{}
-	seen := map[ssa.Value]bool{}
-	var work []ssa.Value
-	push := func(v ssa.Value) {
-		if v != nil && !seen[v] {
-			seen[v] = true
-			work = append(work, v)
+	calls := map[string][]ssa.CallInstruction{}
+	// context-sensitive: a value that entered a callee through call site cs leaves it only back to cs; a value that
+	// leaves the function the flow started in (empty stack) continues at every call site of that function
+	type item struct {
+		v     ssa.Value
+		stack string // call-site ids entered, "/"-joined
+	}
+	type ctx struct {
+		stack []ssa.CallInstruction
+		hops  int
+	}
+	seen := map[item]bool{}
+	ctxOf := map[item]ctx{}
+	var work []item
+	var cur ctx
+	stackID := func(st []ssa.CallInstruction) string {
+		id := ""
+		for _, c := range st {
+			id += fmt.Sprintf("%p/", c)
 		}
+		return id
+	}
+	pushCtx := func(v ssa.Value, c ctx) {
+		if v == nil {
+			return
+		}
+		it := item{v, stackID(c.stack)}
+		if !seen[it] {
+			seen[it] = true
+			ctxOf[it] = c
+			work = append(work, it)
+		}
+	}
+	push := func(v ssa.Value) { pushCtx(v, cur) }
+	enter := func(param ssa.Value, cs ssa.CallInstruction) {
+		if cur.hops >= 3 {
+			return
+		}
+		st := append(append([]ssa.CallInstruction{}, cur.stack...), cs)
+		pushCtx(param, ctx{st, cur.hops + 1})
 	}
 	push(start)
 	for len(work) > 0 {
-		v := work[len(work)-1]
+		it := work[len(work)-1]
 		work = work[:len(work)-1]
+		v := it.v
+		cur = ctxOf[it]
 		refs := v.Referrers()
 		if refs == nil {
 			continue
@@ -82,6 +123,44 @@ func (e *Engine) forwardCallees(start ssa.Value) map[string]bool {
 				out["<send>"] = true
 			case *ssa.Return:
 				out["<return>"] = true
+				// the value continues at the call site it came in through, or — when it leaves the function the flow
+				// started in — at every call site of that function (same result position)
+				idx := -1
+				for i, rv := range x.Results {
+					if rv == v {
+						idx = i
+					}
+				}
+				rf := x.Parent()
+				if idx < 0 || rf == nil || !inModule(pkgOf(rf)) {
+					break
+				}
+				var sites []ssa.CallInstruction
+				next := cur
+				if n := len(cur.stack); n > 0 {
+					sites = []ssa.CallInstruction{cur.stack[n-1]}
+					next = ctx{cur.stack[:n-1], cur.hops}
+				} else if cur.hops < 3 {
+					sites = e.allCallSites(rf)
+					next = ctx{nil, cur.hops + 1}
+				}
+				for _, cs := range sites {
+					cv, ok := cs.(ssa.Value)
+					if !ok {
+						continue
+					}
+					if len(x.Results) == 1 {
+						pushCtx(cv, next)
+						continue
+					}
+					if cv.Referrers() != nil {
+						for _, r3 := range *cv.Referrers() {
+							if ex, ok := r3.(*ssa.Extract); ok && ex.Index == idx {
+								pushCtx(ex, next)
+							}
+						}
+					}
+				}
 			case ssa.CallInstruction:
 				name := "?"
 				if o := calleeObj(x); o != nil {
@@ -91,6 +170,15 @@ func (e *Engine) forwardCallees(start ssa.Value) map[string]bool {
 					}
 				}
 				out[name] = true
+				calls[name] = append(calls[name], x)
+				// into a module function with a body: the flow continues at the matching parameter
+				if g := staticCallee(x); g != nil && len(g.Blocks) > 0 && inModule(pkgOf(g)) {
+					for i, a := range x.Common().Args {
+						if a == v && i < len(g.Params) {
+							enter(g.Params[i], x)
+						}
+					}
+				}
 				if val, ok := x.(ssa.Value); ok {
 					// result continues the flow when it is iterator-like or a wrapper
 					push(val)
@@ -99,7 +187,7 @@ func (e *Engine) forwardCallees(start ssa.Value) map[string]bool {
 			}
 		}
 	}
-	return out
+	return out, calls
 }
 
 func sortedKeys(m map[string]bool) []string {
@@ -173,24 +261,18 @@ func ruleReadSitesFiltered(e *Engine, r *Reporter, kinds map[string]bool, floor 
 			continue
 		}
 		v, _ := s.call.(ssa.Value)
-		fc := e.forwardCallees(v)
+		fc, fcalls := e.forwardCalls(v)
 		key := fmt.Sprintf("%s | %s #%d", fname(s.top), s.meth, ordinalIn(s.top, s.call))
 		model := fc["storage.NewFilteredTupleKeyIterator"] || fc["validation.ValidateTupleForRead"]
 		cond := fc["storage.NewConditionsFilteredTupleKeyIterator"] || fc["eval.EvaluateTupleCondition"]
 		// the filter handed to NewFilteredTupleKeyIterator must be FilterInvalidTuples
 		if fc["storage.NewFilteredTupleKeyIterator"] {
 			okF := false
-			eachInstr(s.top, true, func(in ssa.Instruction) {
-				c, ok := in.(ssa.CallInstruction)
-				if !ok {
-					return
+			for _, c := range fcalls["storage.NewFilteredTupleKeyIterator"] {
+				if len(c.Common().Args) >= 2 && strings.Contains(describe_(c.Common().Args[1]), "FilterInvalidTuples(") {
+					okF = true
 				}
-				if o := calleeObj(c); o != nil && o.Name() == "NewFilteredTupleKeyIterator" && len(c.Common().Args) >= 2 {
-					if strings.Contains(describe_(c.Common().Args[1]), "FilterInvalidTuples(") {
-						okF = true
-					}
-				}
-			})
+			}
 			model = model && okF
 		}
 		switch kind {
@@ -328,4 +410,8 @@ func ruleConditionErrorsUsed(e *Engine, r *Reporter, pkgs []string) {
 			}
 		}
 	}
+}
+
+func inModule(pkgPath string) bool {
+	return pkgPath == modPath || strings.HasPrefix(pkgPath, modPath+"/")
 }
